@@ -20,7 +20,6 @@ import (
 	"github.com/datarhei/gosrt/circular"
 	srtpacket "github.com/datarhei/gosrt/packet"
 	"github.com/pion/webrtc/v4"
-	"pgregory.net/rapid"
 
 	v35 "github.com/bluenviron/mediamtx/internal/verifc35"
 )
@@ -61,16 +60,18 @@ func c35Offers() (string, string) {
 	return c35OfferPub, c35OfferSub
 }
 
-// mutateOffer edits a valid offer line by line.
-func (g *c35G) mutateOffer(lbl, offer string) (string, string) {
+// mutateOffer edits a valid offer line by line (0 edits when the oddity gate is closed).
+func (g *c35G) mutateOffer(offer string) (string, string) {
 	lines := strings.Split(strings.TrimRight(offer, "\r\n"), "\r\n")
 	var notes []string
-	nMut := rapid.SampledFrom([]int{0, 0, 1, 1, 1, 2, 3}).Draw(g.t, g.l(lbl+"n"))
+	nMut := 0
+	if g.odd(2) {
+		nMut = g.rng(1, 3)
+	}
 	for i := 0; i < nMut; i++ {
-		l := fmt.Sprintf("%s%d", lbl, i)
-		switch g.intn(l+"op", 0, 13) {
+		switch g.x.Intn(10) {
 		case 0: // drop all lines with a prefix
-			pfx := g.pick(l+"pfx", "a=ice-ufrag", "a=ice-pwd", "a=fingerprint", "a=setup", "a=mid", "a=group", "a=rtpmap", "a=fmtp", "m=", "a=rtcp-mux", "a=sendonly", "a=recvonly", "a=msid", "a=ssrc", "a=extmap", "o=", "s=", "t=", "v=", "c=")
+			pfx := g.pick("a=ice-ufrag", "a=ice-pwd", "a=fingerprint", "a=setup", "a=mid", "a=group", "a=rtpmap", "a=fmtp", "m=", "a=rtcp-mux", "a=sendonly", "a=recvonly", "a=msid", "a=ssrc", "a=extmap", "o=", "s=", "t=", "v=", "c=")
 			var out []string
 			for _, ln := range lines {
 				if !strings.HasPrefix(ln, pfx) {
@@ -80,8 +81,8 @@ func (g *c35G) mutateOffer(lbl, offer string) (string, string) {
 			lines = out
 			notes = append(notes, "drop "+pfx)
 		case 1: // replace the value of an attribute
-			pfx := g.pick(l+"pfx", "a=ice-ufrag:", "a=ice-pwd:", "a=fingerprint:", "a=setup:", "a=mid:", "a=group:", "a=ice-options:", "a=msid-semantic:", "a=candidate:")
-			val := g.pick(l+"val", "", "x", "a b", strings.Repeat("a", 3), strings.Repeat("a", 21), strings.Repeat("a", 300), "é", "\x00", "sha-256 00", "sha-256 "+strings.Repeat("AA:", 31)+"AA", "sha-1 AA", "md5 x", "active", "passive", "holdconn", "BUNDLE", "BUNDLE 0 1 2 3", "BUNDLE 9", "LS 0 1", "0", "1", "65536", "-1", "trickle", "ice2", "1 1 udp 2130706431 127.0.0.1 9 typ host", "1 1 tcp 1 ::1 9 typ host tcptype passive", "x 1 udp a b c typ", g.long(l+"vl"))
+			pfx := g.pick("a=ice-ufrag:", "a=ice-pwd:", "a=fingerprint:", "a=setup:", "a=mid:", "a=group:", "a=ice-options:", "a=msid-semantic:", "a=candidate:")
+			val := g.pick("", "x", "a b", strings.Repeat("a", 3), strings.Repeat("a", 21), strings.Repeat("a", 300), "é", "\x00", "sha-256 00", "sha-256 "+strings.Repeat("AA:", 31)+"AA", "sha-1 AA", "md5 x", "active", "passive", "holdconn", "BUNDLE", "BUNDLE 0 1 2 3", "BUNDLE 9", "LS 0 1", "0", "1", "65536", "-1", "trickle", "ice2", "1 1 udp 2130706431 127.0.0.1 9 typ host", "1 1 tcp 1 ::1 9 typ host tcptype passive", "x 1 udp a b c typ", g.long())
 			for j, ln := range lines {
 				if strings.HasPrefix(ln, pfx) {
 					lines[j] = pfx + val
@@ -93,20 +94,20 @@ func (g *c35G) mutateOffer(lbl, offer string) (string, string) {
 			notes = append(notes, "set "+pfx)
 		case 2: // odd m= line
 			for j, ln := range lines {
-				if strings.HasPrefix(ln, "m=") && g.chance(fmt.Sprintf("%sm%d", l, j), 2) {
-					lines[j] = g.pick(fmt.Sprintf("%smv%d", l, j), "m=video 9 UDP/TLS/RTP/SAVPF", "m=video 9 UDP/TLS/RTP/SAVPF 0", "m=video 0 UDP/TLS/RTP/SAVPF 96", "m=video 9 RTP/AVP 96", "m=audio 9 UDP/TLS/RTP/SAVPF 111 111 111", "m=application 9 UDP/DTLS/SCTP webrtc-datachannel", "m=video 9 UDP/TLS/RTP/SAVPF 999", "m=video 99999 UDP/TLS/RTP/SAVPF 96", "m=x 9 UDP/TLS/RTP/SAVPF 96", "m=", "m=video", "m=video 9 UDP/TLS/RTP/SAVPF "+strings.Repeat("96 ", 500))
+				if strings.HasPrefix(ln, "m=") && g.chance(2) {
+					lines[j] = g.pick("m=video 9 UDP/TLS/RTP/SAVPF", "m=video 9 UDP/TLS/RTP/SAVPF 0", "m=video 0 UDP/TLS/RTP/SAVPF 96", "m=video 9 RTP/AVP 96", "m=audio 9 UDP/TLS/RTP/SAVPF 111 111 111", "m=application 9 UDP/DTLS/SCTP webrtc-datachannel", "m=video 9 UDP/TLS/RTP/SAVPF 999", "m=video 99999 UDP/TLS/RTP/SAVPF 96", "m=x 9 UDP/TLS/RTP/SAVPF 96", "m=", "m=video", "m=video 9 UDP/TLS/RTP/SAVPF "+strings.Repeat("96 ", 500))
 				}
 			}
 			notes = append(notes, "odd-m")
 		case 3: // codecs
 			for j, ln := range lines {
-				if strings.HasPrefix(ln, "a=rtpmap:") && g.chance(fmt.Sprintf("%sr%d", l, j), 3) {
+				if strings.HasPrefix(ln, "a=rtpmap:") && g.chance(3) {
 					pt := strings.SplitN(strings.TrimPrefix(ln, "a=rtpmap:"), " ", 2)[0]
-					lines[j] = "a=rtpmap:" + pt + " " + g.pick(fmt.Sprintf("%srv%d", l, j), "H264/90000", "H264/0", "H265/90000", "VP8/90000", "VP9/90000", "AV1/90000", "opus/48000/2", "opus/0/0", "opus/48000/255", "PCMU/8000", "G722/8000", "multiopus/48000/6", "L16/48000/2", "x/1", "/", "", "H264/99999999999", "rtx/90000", "red/90000", "ulpfec/90000")
+					lines[j] = "a=rtpmap:" + pt + " " + g.pick("H264/90000", "H264/0", "H265/90000", "VP8/90000", "VP9/90000", "AV1/90000", "opus/48000/2", "opus/0/0", "opus/48000/255", "PCMU/8000", "G722/8000", "multiopus/48000/6", "L16/48000/2", "x/1", "/", "", "H264/99999999999", "rtx/90000", "red/90000", "ulpfec/90000")
 				}
-				if strings.HasPrefix(ln, "a=fmtp:") && g.chance(fmt.Sprintf("%sf%d", l, j), 3) {
+				if strings.HasPrefix(ln, "a=fmtp:") && g.chance(3) {
 					pt := strings.SplitN(strings.TrimPrefix(ln, "a=fmtp:"), " ", 2)[0]
-					lines[j] = "a=fmtp:" + pt + " " + g.pick(fmt.Sprintf("%sfv%d", l, j), "", "apt=999", "apt=", "packetization-mode=9;profile-level-id=zz", "profile-level-id=", "level-asymmetry-allowed=1;packetization-mode=1;profile-level-id=42e01f;sprop-parameter-sets=!!", "minptime=x;useinbandfec=2;stereo=9;sprop-stereo=9", "profile-id="+g.num(fmt.Sprintf("%spid%d", l, j)), "channel_mapping=0,1;num_streams=9;coupled_streams=9", ";;;", strings.Repeat("a=b;", 2000))
+					lines[j] = "a=fmtp:" + pt + " " + g.pick("", "apt=999", "apt=", "packetization-mode=9;profile-level-id=zz", "profile-level-id=", "level-asymmetry-allowed=1;packetization-mode=1;profile-level-id=42e01f;sprop-parameter-sets=!!", "minptime=x;useinbandfec=2;stereo=9;sprop-stereo=9", "profile-id="+g.num(), "channel_mapping=0,1;num_streams=9;coupled_streams=9", ";;;", strings.Repeat("a=b;", 2000))
 				}
 			}
 			notes = append(notes, "codecs")
@@ -120,107 +121,120 @@ func (g *c35G) mutateOffer(lbl, offer string) (string, string) {
 			}
 			if first >= 0 {
 				media := append([]string(nil), lines[first:]...)
-				for k := 0; k < rapid.SampledFrom([]int{1, 2, 10, 60}).Draw(g.t, g.l(l+"dup")); k++ {
+				for k := 0; k < []int{1, 2, 10, 60}[g.x.Intn(4)]; k++ {
 					lines = append(lines, media...)
 				}
 				notes = append(notes, "dup-media")
 			}
-		case 5: // no media at all
+		case 5: // no media at all / only the first
+			cnt, keep := 0, g.rng(0, 1)
 			for j, ln := range lines {
 				if strings.HasPrefix(ln, "m=") {
-					lines = lines[:j]
-					break
-				}
-			}
-			notes = append(notes, "no-media")
-		case 6: // only one of the media
-			cnt := 0
-			for j, ln := range lines {
-				if strings.HasPrefix(ln, "m=") {
-					cnt++
-					if cnt == 2 {
+					if cnt == keep {
 						lines = lines[:j]
 						break
 					}
+					cnt++
 				}
 			}
-			notes = append(notes, "one-media")
-		case 7: // direction flips
+			notes = append(notes, fmt.Sprintf("keep-%d-media", keep))
+		case 6: // direction flips
 			for j, ln := range lines {
 				if ln == "a=sendonly" || ln == "a=recvonly" {
-					lines[j] = g.pick(fmt.Sprintf("%sd%d", l, j), "a=sendonly", "a=recvonly", "a=sendrecv", "a=inactive", "a=sendonly\r\na=recvonly")
+					lines[j] = g.pick("a=sendonly", "a=recvonly", "a=sendrecv", "a=inactive", "a=sendonly\r\na=recvonly")
 				}
 			}
 			notes = append(notes, "direction")
-		case 8: // junk line somewhere
-			pos := g.intn(l+"pos", 0, len(lines))
-			junk := g.pick(l+"junk", "", "a", "a=", "=", "x=y", "a=rtpmap", "a=rtpmap:", "a=fmtp", "a=extmap:0 x", "a=extmap:15 urn:x", "a=extmap:99999999999 urn:x", "a=ssrc:x cname:y", "a=ssrc-group:FID", "a=ssrc-group:FID 1 2 3 4 5", "a=rid:1 send", "a=simulcast:send 1;2;3", "a=simulcast:send "+strings.Repeat("a;", 300), "a=rtcp-fb:* nack", "a=rtcp-fb:999 x", "a=sctp-port:5000", "a=max-message-size:-1", "b=AS:x", "c=IN IP4", "\x00", g.long(l+"junkl"))
+		case 7: // junk line somewhere
+			pos := g.rng(0, len(lines))
+			junk := g.pick("", "a", "a=", "=", "x=y", "a=rtpmap", "a=rtpmap:", "a=fmtp", "a=extmap:0 x", "a=extmap:15 urn:x", "a=extmap:99999999999 urn:x", "a=ssrc:x cname:y", "a=ssrc-group:FID", "a=ssrc-group:FID 1 2 3 4 5", "a=rid:1 send", "a=simulcast:send 1;2;3", "a=simulcast:send "+strings.Repeat("a;", 300), "a=rtcp-fb:* nack", "a=rtcp-fb:999 x", "a=sctp-port:5000", "a=max-message-size:-1", "b=AS:x", "c=IN IP4", "\x00", g.long())
 			lines = append(lines[:pos], append([]string{junk}, lines[pos:]...)...)
 			notes = append(notes, "junk-line")
-		case 9: // data channel only
-			lines = append(lines, "m=application 9 UDP/DTLS/SCTP webrtc-datachannel", "c=IN IP4 0.0.0.0", "a=mid:"+g.pick(l+"dcmid", "2", "0", "x", ""), "a=sctp-port:"+g.num(l+"sctp"))
+		case 8: // data channel section
+			lines = append(lines, "m=application 9 UDP/DTLS/SCTP webrtc-datachannel", "c=IN IP4 0.0.0.0", "a=mid:"+g.pick("2", "0", "x", ""), "a=sctp-port:"+g.num())
 			notes = append(notes, "datachannel")
-		default:
+		default: // encoding of the whole body
+			out := strings.Join(lines, "\r\n") + "\r\n"
+			switch g.x.Intn(3) {
+			case 0:
+				return strings.ReplaceAll(out, "\r\n", "\n"), strings.Join(append(notes, "lf"), ",")
+			case 1:
+				return string(g.x.MutateBytesAlways([]byte(out))), strings.Join(append(notes, "bytes"), ",")
+			default:
+				return out + strings.Repeat("a=x:"+strings.Repeat("y", 1000)+"\r\n", []int{10, 127, 131, 300}[g.x.Intn(4)]), strings.Join(append(notes, "huge"), ",")
+			}
 		}
 	}
-	out := strings.Join(lines, "\r\n") + "\r\n"
-	switch g.intn(lbl+"enc", 0, 19) {
-	case 0:
-		out = strings.ReplaceAll(out, "\r\n", "\n")
-		notes = append(notes, "lf")
-	case 1:
-		out = string(v35.MutateBytesAlways(g.t, g.l(lbl+"bytes"), []byte(out)))
-		notes = append(notes, "bytes")
-	case 2:
-		out += strings.Repeat("a=x:"+strings.Repeat("y", 1000)+"\r\n", rapid.SampledFrom([]int{10, 127, 131, 300}).Draw(g.t, g.l(lbl+"huge")))
-		notes = append(notes, "huge")
-	}
-	return out, strings.Join(notes, ",")
+	return strings.Join(lines, "\r\n") + "\r\n", strings.Join(notes, ",")
 }
 
-func (g *c35G) sdpFrag(lbl string) string {
-	ufrag := g.pick(lbl+"uf", "EsAw", "EsAw", "newufrag", "", "a", strings.Repeat("u", 300))
-	pwd := g.pick(lbl+"pw", "bP+XJMM09aR8AiX1jdukzR6Y", "bP+XJMM09aR8AiX1jdukzR6Y", "short", "", strings.Repeat("p", 300))
+func (g *c35G) sdpFrag() string {
+	ufrag, pwd := "EsAw", "bP+XJMM09aR8AiX1jdukzR6Y"
+	if g.chance(2) { // new credentials = ICE restart
+		ufrag, pwd = "newufrag", "newpwdnewpwdnewpwdnewpwd"
+	}
+	if g.odd(6) {
+		ufrag = g.pick("", "a", strings.Repeat("u", 300))
+	}
+	if g.odd(6) {
+		pwd = g.pick("short", "", strings.Repeat("p", 300))
+	}
+	if g.odd(12) {
+		return g.pick("", "x", "a=", "m=", "m=video", "\r\n\r\n", "v=0\r\n", "a=ice-ufrag:x\r\na=ice-pwd:y\r\nm=video 9 UDP/TLS/RTP/SAVPF 96\r\n", strings.Repeat("a=candidate:1 1 udp 1 127.0.0.1 1 typ host\r\n", 3000), "\x00\xff")
+	}
 	var b strings.Builder
 	line := func(s string) { b.WriteString(s + "\r\n") }
-	if g.chance(lbl+"sess", 2) {
+	sessCred := g.chance(2)
+	if sessCred {
 		line("a=ice-ufrag:" + ufrag)
 		line("a=ice-pwd:" + pwd)
 	}
-	if g.chance(lbl+"grp", 3) {
+	if g.chance(3) {
 		line("a=group:BUNDLE 0 1")
 	}
-	for m := 0; m < g.intn(lbl+"nm", 0, 3); m++ {
-		ml := fmt.Sprintf("%sm%d", lbl, m)
-		line(g.pick(ml+"m", "m=video 9 UDP/TLS/RTP/SAVPF 96", "m=audio 9 RTP/AVP 0", "m=application 9 UDP/DTLS/SCTP webrtc-datachannel", "m=video 9 UDP/TLS/RTP/SAVPF"))
-		if !g.chance(ml+"nomid", 6) {
-			line("a=mid:" + g.pick(ml+"mid", "0", "0", "1", "2", "65535", "65536", "-1", "x", "", "00"))
+	nm := g.rng(1, 2)
+	if g.odd(8) {
+		nm = []int{0, 3}[g.x.Intn(2)]
+	}
+	for m := 0; m < nm; m++ {
+		ml := "m=video 9 UDP/TLS/RTP/SAVPF 96"
+		if g.odd(8) {
+			ml = g.pick("m=audio 9 RTP/AVP 0", "m=application 9 UDP/DTLS/SCTP webrtc-datachannel", "m=video 9 UDP/TLS/RTP/SAVPF")
 		}
-		if g.chance(ml+"cred", 2) {
+		line(ml)
+		if !g.odd(12) {
+			mid := fmt.Sprint(m)
+			if g.odd(8) {
+				mid = g.pick("2", "65535", "65536", "-1", "x", "", "00")
+			}
+			line("a=mid:" + mid)
+		}
+		if !sessCred || g.chance(3) {
 			line("a=ice-ufrag:" + ufrag)
 			line("a=ice-pwd:" + pwd)
 		}
-		for c := 0; c < g.intn(ml+"nc", 0, 3); c++ {
-			line("a=candidate:" + g.pick(fmt.Sprintf("%sc%d", ml, c),
-				"1 1 udp 2130706431 127.0.0.1 50000 typ host", "2 1 UDP 1694498815 1.2.3.4 1 typ srflx raddr 0.0.0.0 rport 0", "3 1 tcp 1518280447 ::1 9 typ host tcptype active",
-				"4 2 udp 1 127.0.0.1 65536 typ host", "5 1 udp 99999999999 127.0.0.1 1 typ host", "6 1 udp 1 999.999.999.999 1 typ host", "7 1 udp 1 x.local 1 typ host", "", "x", "1 1 udp", "1 1 udp 1 127.0.0.1 1 typ", "1 1 udp 1 127.0.0.1 1 typ relay raddr", "8 1 udp 1 127.0.0.1 1 typ host generation 0 ufrag x network-id "+g.num(fmt.Sprintf("%snid%d", ml, c)), strings.Repeat("1 ", 2000)))
+		for c := 0; c < g.rng(0, 3); c++ {
+			cand := g.pick("1 1 udp 2130706431 127.0.0.1 50000 typ host", "2 1 UDP 1694498815 1.2.3.4 1 typ srflx raddr 0.0.0.0 rport 0", "3 1 tcp 1518280447 ::1 9 typ host tcptype active")
+			if g.odd(4) {
+				cand = g.pick("4 2 udp 1 127.0.0.1 65536 typ host", "5 1 udp 99999999999 127.0.0.1 1 typ host", "6 1 udp 1 999.999.999.999 1 typ host", "7 1 udp 1 x.local 1 typ host", "", "x", "1 1 udp", "1 1 udp 1 127.0.0.1 1 typ", "1 1 udp 1 127.0.0.1 1 typ relay raddr", "8 1 udp 1 127.0.0.1 1 typ host generation 0 ufrag x network-id "+g.num(), strings.Repeat("1 ", 2000))
+			}
+			line("a=candidate:" + cand)
 		}
-		if g.chance(ml+"eoc", 3) {
+		if g.chance(3) {
 			line("a=end-of-candidates")
 		}
 	}
-	out := b.String()
-	if g.chance(lbl+"raw", 8) {
-		out = g.pick(lbl+"rawv", "", "x", "a=", "m=", "m=video", "\r\n\r\n", "v=0\r\n", "a=ice-ufrag:x\r\na=ice-pwd:y\r\nm=video 9 UDP/TLS/RTP/SAVPF 96\r\n", strings.Repeat("a=candidate:1 1 udp 1 127.0.0.1 1 typ host\r\n", 3000), "\x00\xff")
-	}
-	return out
+	return b.String()
 }
 
 func (g *c35G) genWebRTC() *c35Input {
 	in := g.httpInput("webrtc", "tcp", "webrtc")
 	pub, sub := c35Offers()
-	p := g.path("path")
-	flow := g.pick("flow", "whep", "whep", "whep", "whip", "whip", "whip", "session-odd", "page", "options", "other")
+	p := g.path()
+	flow := g.pick("whep", "whep", "whep", "whep", "whip", "whip", "whip", "whip", "page", "options")
+	if g.odd(8) {
+		flow = g.pick("session-odd", "other")
+	}
 	in.Cls = "webrtc-" + flow
 	switch flow {
 	case "whep", "whip":
@@ -228,52 +242,60 @@ func (g *c35G) genWebRTC() *c35Input {
 		target := "/" + p + "/whep"
 		if flow == "whip" {
 			offer = pub
-			target = "/" + fmt.Sprintf("pub%d", g.intn("pubn", 0, 3)) + "/whip"
-			if g.chance("pubpath", 6) {
+			target = "/" + g.pubPath() + "/whip"
+			if g.odd(10) {
 				target = "/" + p + "/whip"
 			}
 		}
-		body, note := g.mutateOffer("offer", offer)
-		ct := g.pick("ct", "application/sdp", "application/sdp", "application/sdp", "application/sdp", "application/sdp; charset=utf-8", "APPLICATION/SDP", "text/plain", "", "application/sdp;", ";")
-		g.addReq(in, g.httpReq("r0", "POST", g.oddPath("p0", target)+g.query("q", "token", g.token("tok")), []byte(body), ct), false)
+		body, note := g.mutateOffer(offer)
+		ct := "application/sdp"
+		if g.odd(10) {
+			ct = g.pick("application/sdp; charset=utf-8", "APPLICATION/SDP", "text/plain", "", "application/sdp;", ";")
+		}
+		q := ""
+		if g.chance(4) {
+			q = g.query("token", g.token())
+		}
+		g.addReq(in, g.httpReq("POST", g.oddPath(target)+q, []byte(body), ct), false)
 		in.Note += " {" + note + "}"
-		for i := 0; i < g.intn("nfollow", 0, 3); i++ {
-			l := fmt.Sprintf("f%d", i)
-			switch g.intn(l+"k", 0, 3) {
+		for i := 0; i < g.rng(0, 3); i++ {
+			switch g.x.Intn(4) {
 			case 0, 1:
-				r := g.httpReq(l, "PATCH", "{{LOC}}", []byte(g.sdpFrag(l+"frag")), g.pick(l+"ct", "application/trickle-ice-sdpfrag", "application/trickle-ice-sdpfrag", "application/trickle-ice-sdpfrag", "application/sdp", ""))
-				r.hdr = append(r.hdr, [2]string{"If-Match", g.pick(l+"im", "*", "\"x\"", "")})
+				ct := "application/trickle-ice-sdpfrag"
+				if g.odd(10) {
+					ct = g.pick("application/sdp", "")
+				}
+				r := g.httpReq("PATCH", "{{LOC}}", []byte(g.sdpFrag()), ct)
+				r.hdr = append(r.hdr, [2]string{"If-Match", g.pick("*", "*", "\"x\"", "")})
 				g.addReq(in, r, true)
 			case 2:
-				g.addReq(in, g.httpReq(l, "DELETE", "{{LOC}}", nil, ""), true)
+				g.addReq(in, g.httpReq("DELETE", "{{LOC}}", nil, ""), true)
 			default:
-				g.addReq(in, g.httpReq(l, g.pick(l+"m", "GET", "POST", "PUT", "OPTIONS"), "{{LOC}}", []byte("x"), "application/sdp"), true)
+				g.addReq(in, g.httpReq(g.pick("GET", "POST", "PUT", "OPTIONS"), "{{LOC}}", []byte("x"), "application/sdp"), true)
 			}
 		}
 	case "session-odd":
-		kind := g.pick("kind", "whip", "whep")
-		id := g.uuidish("id")
-		if id == "{{ID}}" {
-			id = "00000000-0000-0000-0000-000000000001"
-		}
-		m := g.pick("m", "PATCH", "PATCH", "DELETE", "DELETE", "GET", "POST")
+		kind := g.pick("whip", "whep")
+		id := g.pick("00000000-0000-0000-0000-000000000001", "ffffffff-ffff-ffff-ffff-ffffffffffff", "00000000000000000000000000000000", "{00000000-0000-0000-0000-000000000000}", "urn:uuid:00000000-0000-0000-0000-000000000000",
+			"0", "x", "00000000-0000-0000-0000-00000000000", "00000000-0000-0000-0000-0000000000000", "g0000000-0000-0000-0000-000000000000", "%00", "a/b", g.long())
+		m := g.pick("PATCH", "PATCH", "DELETE", "DELETE", "GET", "POST")
 		var body []byte
 		ct := ""
 		if m == "PATCH" || m == "POST" {
-			body = []byte(g.sdpFrag("frag"))
-			ct = g.pick("ct", "application/trickle-ice-sdpfrag", "application/trickle-ice-sdpfrag", "application/sdp", "")
+			body = []byte(g.sdpFrag())
+			ct = g.pick("application/trickle-ice-sdpfrag", "application/trickle-ice-sdpfrag", "application/sdp", "")
 		}
-		g.addReq(in, g.httpReq("r0", m, g.oddPath("p0", "/"+p+"/"+kind+"/"+id), body, ct), false)
+		g.addReq(in, g.httpReq(m, g.oddPath("/"+p+"/"+kind+"/"+id), body, ct), false)
 	case "page":
-		g.addReq(in, g.httpReq("r0", "GET", g.oddPath("p0", g.pick("t", "/"+p, "/"+p+"/", "/"+p+"/publish", "/"+p+"/publisher.js", "/reader.js", "/", "/favicon.ico", "/"+p+"/whip", "/"+p+"/whep", "/whip", "/whep", "//whip", "/ /whip"))+g.query("q", "controls", g.token("c")), nil, ""), false)
+		g.addReq(in, g.httpReq("GET", g.oddPath(g.pick("/"+p, "/"+p+"/", "/"+p+"/publish", "/"+p+"/publisher.js", "/reader.js", "/", "/favicon.ico", "/"+p+"/whip", "/"+p+"/whep", "/whip", "/whep", "//whip", "/ /whip"))+g.query("controls", g.token()), nil, ""), false)
 	case "options":
-		r := g.httpReq("r0", "OPTIONS", g.oddPath("p0", "/"+p+"/"+g.pick("kind", "whip", "whep")), nil, "")
-		if g.chance("preflight", 2) {
+		r := g.httpReq("OPTIONS", g.oddPath("/"+p+"/"+g.pick("whip", "whep")), nil, "")
+		if g.chance(2) {
 			r.hdr = append(r.hdr, [2]string{"Access-Control-Request-Method", "POST"})
 		}
 		g.addReq(in, r, false)
 	default:
-		g.addReq(in, g.httpReq("r0", g.pick("m", "PUT", "HEAD", "GET", "DELETE", "PATCH", "POST"), g.oddPath("p0", "/"+p+"/"+g.pick("kind", "whip", "whep", "whip/", "whep/x/y", "whipx")), []byte(g.token("body")), g.pick("ct", "application/sdp", "")), false)
+		g.addReq(in, g.httpReq(g.pick("PUT", "HEAD", "GET", "DELETE", "PATCH", "POST"), g.oddPath("/"+p+"/"+g.pick("whip", "whep", "whip/", "whep/x/y", "whipx")), []byte(g.token()), g.pick("application/sdp", "")), false)
 	}
 	g.deliver(in)
 	in.Note = "webrtc: " + in.Note
@@ -282,13 +304,13 @@ func (g *c35G) genWebRTC() *c35Input {
 
 // STUN / DTLS / RTP looking datagrams to the ICE UDP mux, framed (RFC 4571) to the ICE TCP mux.
 func (g *c35G) genICE() *c35Input {
-	tcp := g.chance("tcp", 3)
+	tcp := g.chance(3)
 	in := &c35Input{L: "webrtcudp", K: "udp", Proto: "stun", Cls: "ice-udp"}
 	if tcp {
 		in = &c35Input{L: "webrtctcp", K: "tcp", Proto: "raw", Cls: "ice-tcp"}
 	}
-	stun := func(lbl string) []byte {
-		typ := rapid.SampledFrom([]uint16{0x0001, 0x0001, 0x0101, 0x0111, 0x0011, 0x0003, 0x0004, 0xffff, 0x0000}).Draw(g.t, g.l(lbl+"typ"))
+	stun := func() []byte {
+		typ := []uint16{0x0001, 0x0001, 0x0001, 0x0101, 0x0111, 0x0011, 0x0003, 0x0004, 0xffff, 0x0000}[g.x.Intn(10)]
 		var attrs []byte
 		attr := func(t uint16, v []byte) {
 			a := make([]byte, 4)
@@ -300,15 +322,14 @@ func (g *c35G) genICE() *c35Input {
 				attrs = append(attrs, 0)
 			}
 		}
-		for i := 0; i < g.intn(lbl+"na", 0, 5); i++ {
-			al := fmt.Sprintf("%sa%d", lbl, i)
-			switch g.intn(al+"k", 0, 7) {
+		for i := 0; i < g.rng(0, 5); i++ {
+			switch g.x.Intn(8) {
 			case 0:
-				attr(0x0006, []byte(g.pick(al+"user", "abcd:efgh", "x", ":", "", strings.Repeat("u", 600), "abcd:"+strings.Repeat("x", 300))))
+				attr(0x0006, []byte(g.pick("abcd:efgh", "x", ":", "", strings.Repeat("u", 600), "abcd:"+strings.Repeat("x", 300))))
 			case 1:
-				attr(0x0008, make([]byte, rapid.SampledFrom([]int{20, 0, 1, 19, 21, 64}).Draw(g.t, g.l(al+"mi"))))
+				attr(0x0008, make([]byte, []int{20, 0, 1, 19, 21, 64}[g.x.Intn(6)]))
 			case 2:
-				attr(0x8028, make([]byte, rapid.SampledFrom([]int{4, 0, 3, 5}).Draw(g.t, g.l(al+"fp"))))
+				attr(0x8028, make([]byte, []int{4, 0, 3, 5}[g.x.Intn(4)]))
 			case 3:
 				attr(0x0024, []byte{0x6e, 0x7f, 0x1e, 0xff})
 			case 4:
@@ -316,7 +337,7 @@ func (g *c35G) genICE() *c35Input {
 			case 5:
 				attr(0x0025, nil)
 			case 6:
-				attr(uint16(g.intn(al+"t", 0, 65535)), rapid.SliceOfN(rapid.Byte(), 0, 24).Draw(g.t, g.l(al+"v")))
+				attr(uint16(g.rng(0, 65535)), g.x.Bytes(0, 24))
 			default:
 				attr(0x0020, []byte{0, 1, 0x21, 0x12, 0x5e, 0x12, 0xa4, 0x43})
 			}
@@ -327,43 +348,48 @@ func (g *c35G) genICE() *c35Input {
 		binary.BigEndian.PutUint32(h[4:], 0x2112A442)
 		copy(h[8:], []byte("c35c35c35c35"))
 		out := append(h, attrs...)
-		if g.chance(lbl+"len", 6) {
-			binary.BigEndian.PutUint16(out[2:], uint16(rapid.SampledFrom([]int{0, 1, 3, len(attrs) + 4, 65535}).Draw(g.t, g.l(lbl+"lenv"))))
+		if g.chance(6) {
+			binary.BigEndian.PutUint16(out[2:], uint16([]int{0, 1, 3, len(attrs) + 4, 65535}[g.x.Intn(5)]))
 		}
-		if g.chance(lbl+"cookie", 10) {
+		if g.chance(10) {
 			out[4] = 0
 		}
 		return out
 	}
-	n := g.intn("n", 1, 4)
+	n := g.rng(1, 4)
 	for i := 0; i < n; i++ {
-		l := fmt.Sprintf("d%d", i)
 		var d []byte
-		switch g.intn(l+"k", 0, 6) {
+		switch g.x.Intn(7) {
 		case 0, 1, 2:
-			d = g.mut(l+"mut", stun(l))
+			d = stun()
+			if g.chance(3) {
+				d = g.x.MutateBytesAlways(d)
+			}
 		case 3: // DTLS client hello-ish
-			d = g.mut(l+"dtls", []byte{0x16, 0xfe, 0xfd, 0, 0, 0, 0, 0, 0, 0, 0, 0x00, 0x10, 0x01, 0, 0, 0x04, 0, 0, 0, 0, 0, 0, 0, 0x04, 0xfe, 0xfd, 0, 0})
+			d = []byte{0x16, 0xfe, 0xfd, 0, 0, 0, 0, 0, 0, 0, 0, 0x00, 0x10, 0x01, 0, 0, 0x04, 0, 0, 0, 0, 0, 0, 0, 0x04, 0xfe, 0xfd, 0, 0}
+			if g.chance(2) {
+				d = g.x.MutateBytesAlways(d)
+			}
 		case 4: // RTP / RTCP
 			d = c35RTP(96, true, 1, 0, 0x1234, c35IDR)
-			if g.chance(l+"rtcp", 2) {
-				d = g.rtcp(l + "rtcpv")
+			if g.chance(2) {
+				d = g.rtcp()
 			}
 		case 5:
-			d = rapid.SliceOfN(rapid.Byte(), 0, 64).Draw(g.t, g.l(l+"rnd"))
+			d = g.x.Bytes(0, 64)
 		default:
 			d = []byte{}
 		}
 		if tcp {
 			fr := []byte{byte(len(d) >> 8), byte(len(d))}
-			if g.chance(l+"frlen", 5) {
-				fr = g.pickBytes(l+"frlenv", []byte{0, 0}, []byte{0xff, 0xff}, []byte{0, 1}, []byte{0x80, 0})
+			if g.chance(5) {
+				fr = g.pickBytes([]byte{0, 0}, []byte{0xff, 0xff}, []byte{0, 1}, []byte{0x80, 0})
 			}
 			d = append(fr, d...)
 		}
-		in.Segs = append(in.Segs, c35Seg{D: d, Wait: tcp && g.chance(l+"wait", 3)})
+		in.Segs = append(in.Segs, c35Seg{D: d, Wait: tcp && g.chance(3)})
 	}
-	in.Half = tcp && g.chance("half", 3)
+	in.Half = tcp && g.chance(3)
 	in.Note = fmt.Sprintf("%s x%d first=%s", in.Cls, n, v35.Short(in.Segs[0].D))
 	return in
 }
@@ -383,16 +409,16 @@ func c35NewRTMPStream() *c35RTMPStream {
 	return s
 }
 
-func (g *c35G) amfValue(lbl string, depth int) any {
-	switch g.intn(lbl+"k", 0, 9) {
+func (g *c35G) amfValue(depth int) any {
+	switch g.x.Intn(10) {
 	case 0:
-		return float64(g.intn(lbl+"n", -2, 5))
+		return float64(g.rng(-2, 5))
 	case 1:
-		return rapid.SampledFrom([]float64{0, -1, 1e308, -1e308, 4294967296, 9.3e18, 0.5}).Draw(g.t, g.l(lbl+"f"))
+		return []float64{0, -1, 1e308, -1e308, 4294967296, 9.3e18, 0.5}[g.x.Intn(7)]
 	case 2:
-		return g.token(lbl + "s")
+		return g.token()
 	case 3:
-		return g.chance(lbl+"b", 2)
+		return g.chance(2)
 	case 4:
 		return nil
 	case 5:
@@ -400,8 +426,8 @@ func (g *c35G) amfValue(lbl string, depth int) any {
 			return "deep"
 		}
 		o := amf0.Object{}
-		for i := 0; i < g.intn(lbl+"no", 0, 3); i++ {
-			o = append(o, amf0.ObjectEntry{Key: g.pick(fmt.Sprintf("%sk%d", lbl, i), "app", "tcUrl", "type", "flashVer", "fourCcList", "videocodecid", "audiocodecid", "width", "", "x"), Value: g.amfValue(fmt.Sprintf("%sv%d", lbl, i), depth+1)})
+		for i := 0; i < g.rng(0, 3); i++ {
+			o = append(o, amf0.ObjectEntry{Key: g.pick("app", "tcUrl", "type", "flashVer", "fourCcList", "videocodecid", "audiocodecid", "width", "", "x"), Value: g.amfValue(depth + 1)})
 		}
 		return o
 	case 6:
@@ -409,8 +435,8 @@ func (g *c35G) amfValue(lbl string, depth int) any {
 			return "deep"
 		}
 		a := amf0.ECMAArray{}
-		for i := 0; i < g.intn(lbl+"na", 0, 3); i++ {
-			a = append(a, amf0.ObjectEntry{Key: g.token(fmt.Sprintf("%sak%d", lbl, i)), Value: g.amfValue(fmt.Sprintf("%sav%d", lbl, i), depth+1)})
+		for i := 0; i < g.rng(0, 3); i++ {
+			a = append(a, amf0.ObjectEntry{Key: g.token(), Value: g.amfValue(depth + 1)})
 		}
 		return a
 	case 7:
@@ -418,39 +444,44 @@ func (g *c35G) amfValue(lbl string, depth int) any {
 			return "deep"
 		}
 		a := amf0.StrictArray{}
-		for i := 0; i < g.intn(lbl+"ns", 0, 3); i++ {
-			a = append(a, g.amfValue(fmt.Sprintf("%ssv%d", lbl, i), depth+1))
+		for i := 0; i < g.rng(0, 3); i++ {
+			a = append(a, g.amfValue(depth+1))
 		}
 		return a
 	case 8:
-		ls := v35.LongString(g.t, g.l(lbl+"long"))
+		ls := g.x.LongString()
 		return ls[:min(len(ls), 70000)]
 	default:
 		return float64(1)
 	}
 }
 
+func (g *c35G) pickAny(opts ...any) any { return opts[g.x.Intn(len(opts))] }
+
 func (g *c35G) genRTMP() *c35Input {
 	in := &c35Input{L: "rtmp", K: "tcp", Proto: "rtmp"}
-	flow := g.pick("flow", "publish", "publish", "publish", "play", "play", "commands", "chunks", "handshake")
+	flow := g.pick("publish", "publish", "publish", "publish", "play", "play", "play")
+	if g.odd(8) {
+		flow = g.pick("commands", "chunks", "handshake")
+	}
 	in.Cls = "rtmp-" + flow
 	var notes []string
 
 	// handshake: C0 C1 C2 up front (the server does not verify C2 in plain mode)
 	c0 := byte(3)
-	if g.chance("c0", 12) {
-		c0 = byte(g.pick("c0v", "\x06", "\x00", "\x04", "\xff", "\x03")[0])
+	if g.odd(25) {
+		c0 = g.pick("\x06", "\x00", "\x04", "\xff")[0]
 	}
 	c1 := make([]byte, 1536)
-	if g.chance("c1ver", 6) { // non-zero version: digest handshake expected by some servers
+	if g.odd(12) { // non-zero version: digest handshake expected by some servers
 		c1[4], c1[5], c1[6], c1[7] = 9, 0, 124, 2
 	}
 	hs := append([]byte{c0}, c1...)
 	hs = append(hs, make([]byte, 1536)...)
 	if flow == "handshake" {
-		d := g.pickBytes("hsv", []byte{3}, hs[:100], hs[:1537], hs[:1537+1000], append([]byte{6}, make([]byte, 1536)...), append(hs, 0xff), bytes.Repeat([]byte{0xff}, 4000))
+		d := g.pickBytes([]byte{3}, hs[:100], hs[:1537], hs[:1537+1000], append([]byte{6}, make([]byte, 1536)...), append(append([]byte(nil), hs...), 0xff), bytes.Repeat([]byte{0xff}, 4000))
 		in.Segs = []c35Seg{{D: d}}
-		in.Half = g.chance("half", 2)
+		in.Half = g.chance(2)
 		in.Note = "rtmp handshake " + v35.Short(d)
 		return in
 	}
@@ -468,23 +499,30 @@ func (g *c35G) genRTMP() *c35Input {
 		}
 		notes = append(notes, note)
 	}
-	p := g.path("path")
+	p := g.path()
+	if flow == "publish" && !g.odd(10) {
+		p = g.pubPath()
+	}
 	app := p
 	key := ""
-	if i := strings.LastIndex(p, "/"); i > 0 && g.chance("split", 2) {
+	if i := strings.LastIndex(p, "/"); i > 0 && g.chance(2) {
 		app, key = p[:i], p[i+1:]
 	}
 	q := ""
-	if g.chance("query", 3) {
-		q = "?" + g.pick("queryv", "user=admin&pass=wrong", "user=&pass=", "token=x", "jwt=a.b.c", "a=%zz", "user=a&user=b", "authmod=adobe&user=admin", "authmod=adobe&user=admin&challenge=x&response=y", "authmod=adobe", "?")
+	if g.chance(4) {
+		q = "?" + g.pick("user=admin&pass=wrong", "user=&pass=", "token=x", "jwt=a.b.c", "a=%zz", "user=a&user=b", "authmod=adobe&user=admin", "authmod=adobe&user=admin&challenge=x&response=y", "authmod=adobe", "?")
 	}
 	tcURL := "rtmp://" + g.s.addr("rtmp") + "/" + app
-	if g.chance("tcurl", 8) {
-		tcURL = g.pick("tcurlv", "", "x", "rtmp://", "rtmp://[::1/app", "rtmp://127.0.0.1:99999/app", "http://a/b", "'rtmp://127.0.0.1/live'", "rtmp://127.0.0.1/"+g.long("tcl"), "rtmp://127.0.0.1/%zz")
+	if g.odd(12) {
+		tcURL = g.pick("", "x", "rtmp://", "rtmp://[::1/app", "rtmp://127.0.0.1:99999/app", "http://a/b", "'rtmp://127.0.0.1/live'", "rtmp://127.0.0.1/"+g.long(), "rtmp://127.0.0.1/%zz")
+	}
+	flashVer := g.pick("LNX 9,0,124,2", "FMLE/3.0 (compatible; FMSc/1.0)")
+	if g.odd(15) {
+		flashVer = g.pick("", g.long())
 	}
 	connectObj := amf0.Object{
 		{Key: "app", Value: app},
-		{Key: "flashVer", Value: g.pick("fv", "LNX 9,0,124,2", "FMLE/3.0 (compatible; FMSc/1.0)", "", g.long("fvl"))},
+		{Key: "flashVer", Value: flashVer},
 		{Key: "tcUrl", Value: tcURL + q},
 		{Key: "fpad", Value: false},
 		{Key: "capabilities", Value: float64(15)},
@@ -492,121 +530,140 @@ func (g *c35G) genRTMP() *c35Input {
 		{Key: "videoCodecs", Value: float64(252)},
 		{Key: "videoFunction", Value: float64(1)},
 	}
-	if g.chance("fourcc", 3) {
-		connectObj = append(connectObj, amf0.ObjectEntry{Key: "fourCcList", Value: g.amfValue("fourccv", 1)})
+	if g.chance(3) {
+		var fcc any = amf0.StrictArray{"hvc1", "av01", "vp09", "Opus", "ac-3"}
+		if g.odd(4) {
+			fcc = g.amfValue(1)
+		}
+		connectObj = append(connectObj, amf0.ObjectEntry{Key: "fourCcList", Value: fcc})
 	}
 	var connectArgs amf0.Data = amf0.Data{connectObj}
-	switch g.intn("connectodd", 0, 14) {
+	switch g.oddCase(12, 4) {
 	case 0:
 		connectArgs = amf0.Data{}
 	case 1:
-		connectArgs = amf0.Data{g.amfValue("cv", 0)}
+		connectArgs = amf0.Data{g.amfValue(0)}
 	case 2:
-		connectArgs = amf0.Data{amf0.Object{{Key: "app", Value: g.amfValue("appv", 1)}, {Key: "tcUrl", Value: g.amfValue("tcv", 1)}}}
+		connectArgs = amf0.Data{amf0.Object{{Key: "app", Value: g.amfValue(1)}, {Key: "tcUrl", Value: g.amfValue(1)}}}
 	case 3:
 		connectArgs = amf0.Data{amf0.ECMAArray(connectObj)}
-	default:
 	}
 	connect := &message.CommandAMF0{ChunkStreamID: 3, Name: "connect", CommandID: 1, Arguments: connectArgs}
 	streamKey := key + q
-	if key == "" {
-		streamKey = q
-	}
 
 	switch flow {
 	case "publish", "play":
-		if g.chance("chunksize", 4) {
-			write(&message.SetChunkSize{Value: rapid.SampledFrom([]uint32{1, 128, 4096, 65536, 0xffffff, 0x7fffffff}).Draw(g.t, g.l("cs"))}, "SetChunkSize")
+		if g.chance(4) {
+			cs := []uint32{4096, 65536, 1024}[g.x.Intn(3)]
+			if g.odd(4) {
+				cs = []uint32{1, 128, 0xffffff, 0x7fffffff}[g.x.Intn(4)]
+			}
+			write(&message.SetChunkSize{Value: cs}, "SetChunkSize")
 		}
-		if g.chance("preconnect", 15) { // publish before connect
+		if g.odd(20) { // publish before connect
 			write(&message.CommandAMF0{ChunkStreamID: 8, MessageStreamID: 0x1000000, Name: "publish", CommandID: 5, Arguments: amf0.Data{nil, streamKey, "live"}}, "publish-before-connect")
 		}
 		write(connect, "connect")
-		if g.chance("ack", 3) {
-			write(&message.SetWindowAckSize{Value: uint32(v35.EvilUint(g.t, g.l("was")))}, "SetWindowAckSize")
+		if g.chance(3) {
+			was := uint32(2500000)
+			if g.odd(4) {
+				was = uint32(g.x.EvilUint())
+			}
+			write(&message.SetWindowAckSize{Value: was}, "SetWindowAckSize")
 		}
 		if flow == "publish" {
-			if g.chance("release", 2) {
+			if g.chance(2) {
 				write(&message.CommandAMF0{ChunkStreamID: 3, Name: "releaseStream", CommandID: 2, Arguments: amf0.Data{nil, streamKey}}, "releaseStream")
 				write(&message.CommandAMF0{ChunkStreamID: 3, Name: "FCPublish", CommandID: 3, Arguments: amf0.Data{nil, streamKey}}, "FCPublish")
 			}
 			write(&message.CommandAMF0{ChunkStreamID: 3, Name: "createStream", CommandID: 4, Arguments: amf0.Data{nil}}, "createStream")
 			var pubArgs amf0.Data = amf0.Data{nil, streamKey, "live"}
-			switch g.intn("pubodd", 0, 11) {
+			switch g.oddCase(12, 3) {
 			case 0:
 				pubArgs = amf0.Data{nil}
 			case 1:
-				pubArgs = amf0.Data{nil, g.amfValue("pubv", 0)}
+				pubArgs = amf0.Data{nil, g.amfValue(0)}
 			case 2:
-				pubArgs = amf0.Data{nil, g.long("pubkey")}
-			default:
+				pubArgs = amf0.Data{nil, g.long()}
 			}
 			write(&message.CommandAMF0{ChunkStreamID: 8, MessageStreamID: 0x1000000, Name: "publish", CommandID: 5, Arguments: pubArgs}, "publish")
 			// metadata + tracks
+			var vcid, acid any = float64(7), float64(10)
+			if g.odd(6) {
+				vcid = g.pickAny(float64(12), float64(0), float64(2), "avc1", "hvc1", "av01", "vp09", nil, float64(1e10))
+			}
+			if g.odd(6) {
+				acid = g.pickAny(float64(2), float64(7), float64(8), float64(0), "mp4a", "Opus", "ac-3", nil, float64(-1))
+			}
 			meta := amf0.Object{
 				{Key: "videodatarate", Value: float64(0)},
-				{Key: "videocodecid", Value: g.pick2("vcid", float64(7), float64(7), float64(12), float64(0), float64(2), "avc1", "hvc1", "av01", "vp09", nil, float64(1e10))},
+				{Key: "videocodecid", Value: vcid},
 				{Key: "audiodatarate", Value: float64(0)},
-				{Key: "audiocodecid", Value: g.pick2("acid", float64(10), float64(10), float64(2), float64(7), float64(8), float64(0), "mp4a", "Opus", "ac-3", nil, float64(-1))},
+				{Key: "audiocodecid", Value: acid},
 			}
-			if g.chance("metaodd", 6) {
-				meta = append(meta, amf0.ObjectEntry{Key: g.token("mk"), Value: g.amfValue("mv", 0)})
+			if g.odd(10) {
+				meta = append(meta, amf0.ObjectEntry{Key: g.token(), Value: g.amfValue(0)})
 			}
 			var metaPayload amf0.Data = amf0.Data{"@setDataFrame", "onMetaData", meta}
-			switch g.intn("metashape", 0, 9) {
+			switch g.oddCase(8, 4) {
 			case 0:
 				metaPayload = amf0.Data{"onMetaData", amf0.ECMAArray(meta)}
 			case 1:
 				metaPayload = amf0.Data{"@setDataFrame", "onMetaData"}
 			case 2:
-				metaPayload = amf0.Data{g.amfValue("m0", 0), g.amfValue("m1", 0), g.amfValue("m2", 0)}
+				metaPayload = amf0.Data{g.amfValue(0), g.amfValue(0), g.amfValue(0)}
 			case 3:
 				metaPayload = nil
-			default:
 			}
 			if metaPayload != nil {
 				write(&message.DataAMF0{ChunkStreamID: 4, MessageStreamID: 0x1000000, Payload: metaPayload}, "onMetaData")
 			}
 			// sequence headers
-			if !g.chance("novcfg", 6) {
+			if !g.odd(12) {
 				sps, pps := c35SPS, c35PPS
-				if g.chance("vcfgodd", 5) {
-					sps = g.pickBytes("spsv", []byte{0x67}, []byte{}, []byte{0x67, 0x42}, bytes.Repeat([]byte{0x67}, 300), []byte{0x67, 0x64, 0x00, 0x0a, 0xff, 0xff, 0xff, 0xff})
+				if g.odd(8) {
+					sps = g.pickBytes([]byte{0x67}, []byte{}, []byte{0x67, 0x42}, bytes.Repeat([]byte{0x67}, 300), []byte{0x67, 0x64, 0x00, 0x0a, 0xff, 0xff, 0xff, 0xff})
 				}
 				write(&message.Video{ChunkStreamID: message.VideoChunkStreamID, MessageStreamID: 0x1000000, Codec: message.CodecH264, IsKeyFrame: true, Type: message.VideoTypeConfig,
 					AVCConfig: &mp4.AVCDecoderConfiguration{ConfigurationVersion: 1, Profile: 0x42, ProfileCompatibility: 0xc0, Level: 0x28, LengthSizeMinusOne: 3, NumOfSequenceParameterSets: 1,
 						SequenceParameterSets: []mp4.AVCParameterSet{{Length: uint16(len(sps)), NALUnit: sps}}, NumOfPictureParameterSets: 1, PictureParameterSets: []mp4.AVCParameterSet{{Length: uint16(len(pps)), NALUnit: pps}}}}, "video-config")
 			}
-			if !g.chance("noacfg", 6) {
+			if !g.odd(12) {
 				write(&message.Audio{ChunkStreamID: message.AudioChunkStreamID, MessageStreamID: 0x1000000, Codec: message.CodecMPEG4Audio, Rate: message.AudioRate44100, Depth: message.AudioDepth16, IsStereo: true, AACType: message.AudioAACTypeConfig,
 					AACConfig: &mpeg4audio.AudioSpecificConfig{Type: mpeg4audio.ObjectTypeAACLC, SampleRate: 44100, ChannelConfig: 2, ChannelCount: 2}}, "audio-config")
 			}
-			for i := 0; i < g.intn("nframes", 0, 5); i++ {
-				l := fmt.Sprintf("fr%d", i)
-				switch g.intn(l+"k", 0, 5) {
+			for i := 0; i < g.rng(0, 5); i++ {
+				k := g.x.Intn(3)
+				if g.odd(6) {
+					k = 3
+				}
+				switch k {
 				case 0, 1:
 					au := []byte{0, 0, 0, byte(len(c35IDR))}
 					au = append(au, c35IDR...)
-					if g.chance(l+"auodd", 4) {
-						au = g.pickBytes(l+"auv", []byte{0xff, 0xff, 0xff, 0xff, 0x65}, []byte{0, 0, 0, 0}, []byte{0, 0, 0}, []byte{0, 0, 0, 1}, bytes.Repeat([]byte{0, 0, 0, 1, 0x09}, 500))
+					if g.odd(6) {
+						au = g.pickBytes([]byte{0xff, 0xff, 0xff, 0xff, 0x65}, []byte{0, 0, 0, 0}, []byte{0, 0, 0}, []byte{0, 0, 0, 1}, bytes.Repeat([]byte{0, 0, 0, 1, 0x09}, 500))
 					}
 					write(&message.Video{ChunkStreamID: message.VideoChunkStreamID, MessageStreamID: 0x1000000, Codec: message.CodecH264, IsKeyFrame: i == 0, Type: message.VideoTypeAU,
-						DTS: time.Duration(i) * 40 * time.Millisecond, PTSDelta: time.Duration(g.intn(l+"ptsd", -2, 2)) * 40 * time.Millisecond, AU: au}, "video-au")
+						DTS: time.Duration(i) * 40 * time.Millisecond, PTSDelta: time.Duration(g.rng(-2, 2)) * 40 * time.Millisecond, AU: au}, "video-au")
 				case 2:
+					au := []byte{0x21, 0x10, 0x04, 0x60, 0x8c, 0x1c}
+					if g.odd(6) {
+						au = g.pickBytes([]byte{0}, bytes.Repeat([]byte{0xff}, 3000))
+					}
 					write(&message.Audio{ChunkStreamID: message.AudioChunkStreamID, MessageStreamID: 0x1000000, Codec: message.CodecMPEG4Audio, Rate: message.AudioRate44100, Depth: message.AudioDepth16, IsStereo: true, AACType: message.AudioAACTypeAU,
-						DTS: time.Duration(i) * 23 * time.Millisecond, AU: g.pickBytes(l+"aau", []byte{0x21, 0x10, 0x04, 0x60, 0x8c, 0x1c}, []byte{0}, bytes.Repeat([]byte{0xff}, 3000))}, "audio-au")
+						DTS: time.Duration(i) * 23 * time.Millisecond, AU: au}, "audio-au")
 				default: // raw media messages: enhanced-RTMP headers, odd codecs
 					typ := uint8(message.TypeVideo)
-					if g.chance(l+"aud", 2) {
+					if g.chance(2) {
 						typ = uint8(message.TypeAudio)
 					}
-					body := g.pickBytes(l+"raw",
+					body := g.pickBytes(
 						[]byte{0x17, 0x00, 0, 0, 0}, []byte{0x17, 0x01, 0, 0, 0}, []byte{0x17, 0x02, 0, 0, 0}, []byte{0x17}, []byte{0x1c, 0x00, 0, 0, 0, 1},
 						[]byte{0x90, 'h', 'v', 'c', '1'}, []byte{0x90, 'a', 'v', '0', '1', 0x81}, []byte{0x91, 'h', 'v', 'c', '1', 0, 0, 0}, []byte{0x96, 0x00, 'a', 'v', 'c', '1', 0, 0, 1, 0x17},
 						[]byte{0x94, 'v', 'p', '0', '9'}, []byte{0x9f}, []byte{0x80, 'a', 'v', 'c', '1'}, []byte{0xaf, 0x00}, []byte{0xaf, 0x00, 0xff, 0xff}, []byte{0xaf, 0x01},
 						[]byte{0x90, 'O', 'p', 'u', 's', 1, 2}, []byte{0x95, 0x00, 'm', 'p', '4', 'a', 0, 0, 1}, []byte{0x94, 'a', 'c', '-', '3', 2}, []byte{0x2f, 0xff}, []byte{0x7e, 0}, []byte{0x8e, 0}, []byte{})
 					if st.raw == nil {
-						// raw messages share the chunk state of the typed writer only approximately: use fresh chunk stream ids
 						bc := bytecounter.NewWriter(&st.buf)
 						st.raw = rawmessage.NewWriter(bc, bc, false)
 					}
@@ -616,76 +673,77 @@ func (g *c35G) genRTMP() *c35Input {
 			}
 		} else {
 			write(&message.CommandAMF0{ChunkStreamID: 3, Name: "createStream", CommandID: 2, Arguments: amf0.Data{nil}}, "createStream")
-			if g.chance("getlen", 3) {
+			if g.chance(3) {
 				write(&message.CommandAMF0{ChunkStreamID: 8, Name: "getStreamLength", CommandID: 3, Arguments: amf0.Data{nil, streamKey}}, "getStreamLength")
 			}
 			var playArgs amf0.Data = amf0.Data{nil, streamKey, float64(-2000)}
-			switch g.intn("playodd", 0, 9) {
+			switch g.oddCase(10, 2) {
 			case 0:
 				playArgs = amf0.Data{nil}
 			case 1:
-				playArgs = amf0.Data{nil, g.amfValue("playv", 0)}
-			default:
+				playArgs = amf0.Data{nil, g.amfValue(0)}
 			}
 			write(&message.CommandAMF0{ChunkStreamID: 8, MessageStreamID: 0x1000000, Name: "play", CommandID: 4, Arguments: playArgs}, "play")
-			write(&message.UserControlSetBufferLength{StreamID: 1, BufferLength: uint32(v35.EvilUint(g.t, g.l("buflen")))}, "SetBufferLength")
-			if g.chance("ackv", 3) {
-				write(&message.Acknowledge{Value: uint32(v35.EvilUint(g.t, g.l("ackval")))}, "Acknowledge")
+			bl := uint32(3000)
+			if g.odd(4) {
+				bl = uint32(g.x.EvilUint())
+			}
+			write(&message.UserControlSetBufferLength{StreamID: 1, BufferLength: bl}, "SetBufferLength")
+			if g.chance(3) {
+				write(&message.Acknowledge{Value: uint32(g.x.EvilUint())}, "Acknowledge")
 			}
 		}
 	case "commands":
-		if !g.chance("noconnect", 4) {
+		if !g.chance(4) {
 			write(connect, "connect")
 		}
-		for i := 0; i < g.intn("ncmd", 1, 6); i++ {
-			l := fmt.Sprintf("c%d", i)
-			name := g.pick(l+"name", "connect", "createStream", "publish", "play", "releaseStream", "FCPublish", "FCUnpublish", "deleteStream", "closeStream", "pause", "seek", "getStreamLength", "_result", "_error", "onStatus", "", "x", g.long(l+"namel"))
+		for i := 0; i < g.rng(1, 6); i++ {
+			name := g.pick("connect", "createStream", "publish", "play", "releaseStream", "FCPublish", "FCUnpublish", "deleteStream", "closeStream", "pause", "seek", "getStreamLength", "_result", "_error", "onStatus", "", "x", g.long())
 			var args amf0.Data
-			for a := 0; a < g.intn(l+"nargs", 0, 3); a++ {
-				args = append(args, g.amfValue(fmt.Sprintf("%sa%d", l, a), 0))
+			for a := 0; a < g.rng(0, 3); a++ {
+				args = append(args, g.amfValue(0))
 			}
-			write(&message.CommandAMF0{ChunkStreamID: byte(g.intn(l+"csid", 2, 63)), MessageStreamID: uint32(rapid.SampledFrom([]uint32{0, 1, 0x1000000, 0xffffffff}).Draw(g.t, g.l(l+"msid"))), Name: name, CommandID: g.intn(l+"cid", -1, 5), Arguments: args}, name)
+			write(&message.CommandAMF0{ChunkStreamID: byte(g.rng(2, 63)), MessageStreamID: []uint32{0, 1, 0x1000000, 0xffffffff}[g.x.Intn(4)], Name: name, CommandID: g.rng(-1, 5), Arguments: args}, name)
 		}
 	case "chunks":
 		write(connect, "connect")
 		// hand-made chunk stream: basic header forms, message lengths, types, extended timestamps, chunk size games
 		var b []byte
-		for i := 0; i < g.intn("nchunks", 1, 5); i++ {
-			l := fmt.Sprintf("k%d", i)
-			fmtB := byte(g.intn(l+"fmt", 0, 3))
-			csid := g.intn(l+"csid", 0, 70)
+		for i := 0; i < g.rng(1, 5); i++ {
+			fmtB := byte(g.rng(0, 3))
+			csid := g.rng(0, 70)
 			switch {
 			case csid == 0:
-				b = append(b, fmtB<<6, byte(g.intn(l+"cs2", 0, 255)))
+				b = append(b, fmtB<<6, byte(g.rng(0, 255)))
 			case csid == 1:
-				b = append(b, fmtB<<6|1, byte(g.intn(l+"cs3a", 0, 255)), byte(g.intn(l+"cs3b", 0, 255)))
+				b = append(b, fmtB<<6|1, byte(g.rng(0, 255)), byte(g.rng(0, 255)))
 			default:
 				b = append(b, fmtB<<6|byte(csid&0x3f))
 			}
-			ts := rapid.SampledFrom([]uint32{0, 1, 0xfffffe, 0xffffff}).Draw(g.t, g.l(l+"ts"))
-			mlen := rapid.SampledFrom([]uint32{0, 1, 4, 5, 128, 129, 4096, 0xffff, 0x10000, 0xffffff}).Draw(g.t, g.l(l+"mlen"))
-			mtype := byte(rapid.SampledFrom([]int{1, 2, 3, 4, 5, 6, 8, 9, 15, 16, 17, 18, 19, 20, 22, 0, 7, 255}).Draw(g.t, g.l(l+"mtype")))
+			ts := []uint32{0, 1, 0xfffffe, 0xffffff}[g.x.Intn(4)]
+			mlen := []uint32{0, 1, 4, 5, 128, 129, 4096, 0xffff, 0x10000, 0xffffff}[g.x.Intn(10)]
+			mtype := byte([]int{1, 2, 3, 4, 5, 6, 8, 9, 15, 16, 17, 18, 19, 20, 22, 0, 7, 255}[g.x.Intn(18)])
 			switch fmtB {
 			case 0:
-				b = append(b, byte(ts>>16), byte(ts>>8), byte(ts), byte(mlen>>16), byte(mlen>>8), byte(mlen), mtype, 0, 0, 0, byte(g.intn(l+"sid", 0, 1)))
+				b = append(b, byte(ts>>16), byte(ts>>8), byte(ts), byte(mlen>>16), byte(mlen>>8), byte(mlen), mtype, 0, 0, 0, byte(g.rng(0, 1)))
 			case 1:
 				b = append(b, byte(ts>>16), byte(ts>>8), byte(ts), byte(mlen>>16), byte(mlen>>8), byte(mlen), mtype)
 			case 2:
 				b = append(b, byte(ts>>16), byte(ts>>8), byte(ts))
 			}
 			if ts == 0xffffff && fmtB != 3 {
-				b = append(b, 0xff, 0xff, 0xff, byte(g.intn(l+"ext", 0, 255)))
+				b = append(b, 0xff, 0xff, 0xff, byte(g.rng(0, 255)))
 			}
 			n := int(mlen)
 			if n > 300 {
-				n = g.intn(l+"plen", 0, 300)
+				n = g.rng(0, 300)
 			}
 			pl := make([]byte, n)
 			if mtype == 1 && n >= 4 { // SetChunkSize value
-				binary.BigEndian.PutUint32(pl, rapid.SampledFrom([]uint32{0, 1, 0x7fffffff, 0x80000000, 0xffffffff, 128}).Draw(g.t, g.l(l+"csv")))
+				binary.BigEndian.PutUint32(pl, []uint32{0, 1, 0x7fffffff, 0x80000000, 0xffffffff, 128}[g.x.Intn(6)])
 			}
 			if mtype == 4 && n >= 2 { // user control event type
-				binary.BigEndian.PutUint16(pl, uint16(g.intn(l+"uc", 0, 40)))
+				binary.BigEndian.PutUint16(pl, uint16(g.rng(0, 40)))
 			}
 			if (mtype == 20 || mtype == 18) && n > 3 {
 				copy(pl, []byte{0x02, 0x00, 0x07, 'c', 'o', 'n', 'n', 'e', 'c', 't', 0x00, 0x3f, 0xf0, 0, 0, 0, 0, 0, 0, 0x03, 0x00, 0x03, 'a', 'p', 'p', 0x02, 0xff, 0xff})
@@ -697,24 +755,25 @@ func (g *c35G) genRTMP() *c35Input {
 	}
 
 	body := st.buf.Bytes()
-	if g.chance("dmg", 5) {
-		body = v35.MutateBytesAlways(g.t, g.l("dmgv"), body)
+	if g.odd(8) {
+		body = g.x.MutateBytesAlways(body)
 		notes = append(notes, "damaged")
 	}
 	in.Segs = []c35Seg{{D: hs, Wait: true}, {D: body}}
-	switch g.intn("delivery", 0, 7) {
+	switch g.oddCase(4, 4) {
 	case 0:
 		in.Half = true
 	case 1:
 		if len(body) > 2 {
-			cut := g.intn("cut", 1, len(body)-1)
-			in.Segs = []c35Seg{{D: hs, Wait: true}, {D: body[:cut]}, {D: body[cut:], Pause: g.intn("pause", 0, 30)}}
+			cut := g.rng(1, len(body)-1)
+			in.Segs = []c35Seg{{D: hs, Wait: true}, {D: body[:cut]}, {D: body[cut:], Pause: g.rng(0, 30)}}
+			notes = append(notes, "[split]")
 		}
 	case 2:
 		if len(body) > 2 {
-			in.Segs[1].D = body[:g.intn("trunc", 1, len(body)-1)]
-			in.Half = g.chance("trunchalf", 2)
-			notes = append(notes, "truncated")
+			in.Segs[1].D = body[:g.rng(1, len(body)-1)]
+			in.Half = g.chance(2)
+			notes = append(notes, "[truncated]")
 		}
 	case 3: // everything in one write
 		in.Segs = []c35Seg{{D: append(append([]byte(nil), hs...), body...)}}
@@ -723,78 +782,77 @@ func (g *c35G) genRTMP() *c35Input {
 	return in
 }
 
-func (g *c35G) pick2(lbl string, opts ...any) any { return opts[g.intn(lbl, 0, len(opts)-1)] }
-
 // ---------------------------------------------------------------- SRT
 
-func (g *c35G) srtStreamID(lbl string, forcePublish bool) string {
-	p := g.path(lbl + "p")
-	action := g.pick(lbl+"act", "read", "read", "publish", "publish")
+func (g *c35G) srtStreamID(forcePublish bool) string {
+	p := g.path()
+	action := g.pick("read", "read", "publish", "publish")
 	if forcePublish {
 		action = "publish"
-		p = fmt.Sprintf("pub%d", g.intn(lbl+"pubn", 0, 3))
+		p = g.pubPath()
 	}
-	switch g.intn(lbl+"shape", 0, 11) {
-	case 0, 1, 2:
-		return action + ":" + p
+	switch g.oddCase(3, 6) {
+	case 0:
+		return action + ":" + p + ":" + g.pick("admin", "", c35AdminUser, g.token()) + ":" + g.pick("wrong", "", g.token())
+	case 1:
+		return action + ":" + p + ":" + g.pick("token=x", "jwt=a.b.c", "user=a&pass=b", "%zz", "")
+	case 2:
+		var kv []string
+		for i := 0; i < g.rng(0, 6); i++ {
+			k := g.pick("u", "r", "h", "s", "t", "m", "x", "")
+			switch g.x.Intn(4) {
+			case 0:
+				kv = append(kv, k) // key without value
+			case 1:
+				kv = append(kv, k+"="+g.pick("request", "publish", "bidirectional", ""))
+			default:
+				kv = append(kv, k+"="+g.token())
+			}
+		}
+		return "#!::" + strings.Join(kv, ",")
 	case 3:
-		return action + ":" + p + ":" + g.pick(lbl+"u", "admin", "", c35AdminUser, g.token(lbl+"ut")) + ":" + g.pick(lbl+"pw", "wrong", "", g.token(lbl+"pt"))
+		return g.pick("", ":", "::", "read", "read:", "publish:", "#!::", "#!::,", "#!::=", "#!::m", "#!:", "read:a:b:c:d:e", "read:live#feedbackplay", "#feedbackplay", "READ:live", " read:live")
 	case 4:
-		return action + ":" + p + ":" + g.pick(lbl+"q", "token=x", "jwt=a.b.c", "user=a&pass=b", "%zz", "")
+		s := g.x.LongString()
+		return action + ":" + s[:min(len(s), 500)]
 	case 5:
+		return action + ":" + g.token()
+	}
+	if g.chance(3) {
 		m := "request"
 		if action == "publish" {
 			m = "publish"
 		}
 		return "#!::r=" + p + ",m=" + m
-	case 6:
-		var kv []string
-		for i := 0; i < g.intn(lbl+"nkv", 0, 6); i++ {
-			k := g.pick(fmt.Sprintf("%sk%d", lbl, i), "u", "r", "h", "s", "t", "m", "x", "")
-			switch g.intn(fmt.Sprintf("%skv%d", lbl, i), 0, 3) {
-			case 0:
-				kv = append(kv, k) // key without value
-			case 1:
-				kv = append(kv, k+"="+g.pick(fmt.Sprintf("%smv%d", lbl, i), "request", "publish", "bidirectional", ""))
-			default:
-				kv = append(kv, k+"="+g.token(fmt.Sprintf("%stv%d", lbl, i)))
-			}
-		}
-		return "#!::" + strings.Join(kv, ",")
-	case 7:
-		return g.pick(lbl+"fixed", "", ":", "::", "read", "read:", "publish:", "#!::", "#!::,", "#!::=", "#!::m", "#!:", "read:a:b:c:d:e", "read:live#feedbackplay", "#feedbackplay", "READ:live", " read:live")
-	case 8:
-		s := v35.LongString(g.t, g.l(lbl+"long"))
-		if len(s) > 500 {
-			s = s[:500]
-		}
-		return action + ":" + s
-	default:
-		return action + ":" + g.token(lbl+"tok")
 	}
+	return action + ":" + p
 }
 
 func (g *c35G) genSRT() *c35Input {
-	switch g.pick("mode", "dial", "dial", "dial", "dial-publish", "dial-publish", "raw", "raw", "junk") {
+	mode := g.pick("dial", "dial", "dial", "dial-publish", "dial-publish", "dial-publish")
+	if g.odd(4) {
+		mode = g.pick("raw", "raw", "raw", "junk")
+	}
+	switch mode {
 	case "dial":
-		in := &c35Input{L: "srt", K: "srtdial", Proto: "srt", Cls: "srt-dial", SID: g.srtStreamID("sid", false)}
-		if g.chance("pass", 8) {
-			in.Pass = g.pick("passv", "0123456789", "0123456789abcdef0123456789abcdef", strings.Repeat("x", 79))
+		in := &c35Input{L: "srt", K: "srtdial", Proto: "srt", Cls: "srt-dial", SID: g.srtStreamID(false)}
+		if g.odd(10) {
+			in.Pass = g.pick("0123456789", "0123456789abcdef0123456789abcdef", strings.Repeat("x", 79))
 		}
 		in.Note = fmt.Sprintf("srt dial streamid=%q pass=%d", in.SID, len(in.Pass))
 		return in
 	case "dial-publish":
-		in := &c35Input{L: "srt", K: "srtdial", Proto: "srt", Cls: "srt-publish", SID: g.srtStreamID("sid", true)}
-		n := g.intn("npk", 0, 40)
-		ts := g.tsPackets("ts", n)
-		if g.chance("rnd", 8) {
-			ts = rapid.SliceOfN(rapid.Byte(), 0, 600).Draw(g.t, g.l("rndts"))
+		in := &c35Input{L: "srt", K: "srtdial", Proto: "srt", Cls: "srt-publish", SID: g.srtStreamID(true)}
+		n := g.rng(7, 40)
+		if g.odd(8) {
+			n = g.rng(0, 6)
+		}
+		ts := g.tsPackets(n)
+		if g.odd(12) {
+			ts = g.x.Bytes(0, 600)
 		}
 		for len(ts) > 0 {
-			k := 1316
-			if k > len(ts) {
-				k = len(ts)
-			}
+			k := min(1316, len(ts))
 			in.Segs = append(in.Segs, c35Seg{D: ts[:k]})
 			ts = ts[k:]
 		}
@@ -804,11 +862,10 @@ func (g *c35G) genSRT() *c35Input {
 		return g.genSRTRaw()
 	default:
 		in := &c35Input{L: "srt", K: "udp", Proto: "raw", Cls: "srt-junk"}
-		for i := 0; i < g.intn("n", 1, 4); i++ {
-			l := fmt.Sprintf("d%d", i)
-			d := g.pickBytes(l+"v", []byte{}, []byte{0x80}, []byte{0x80, 0x00}, make([]byte, 16), []byte{0x80, 0x00, 0, 0, 0, 0, 0, 0, 0, 0, 0, 0, 0, 0, 0, 0}, []byte{0x80, 0x02, 0, 0, 0, 0, 0, 0, 0, 0, 0, 0, 0, 0, 0, 1}, []byte{0x80, 0x05, 0, 0, 0, 0, 0, 0, 0, 0, 0, 0, 0xff, 0xff, 0xff, 0xff}, []byte{0xff, 0xff, 0xff, 0xff}, bytes.Repeat([]byte{0x80}, 1500))
-			if g.chance(l+"rnd", 2) {
-				d = rapid.SliceOfN(rapid.Byte(), 0, 80).Draw(g.t, g.l(l+"rndv"))
+		for i := 0; i < g.rng(1, 4); i++ {
+			d := g.pickBytes([]byte{}, []byte{0x80}, []byte{0x80, 0x00}, make([]byte, 16), []byte{0x80, 0x00, 0, 0, 0, 0, 0, 0, 0, 0, 0, 0, 0, 0, 0, 0}, []byte{0x80, 0x02, 0, 0, 0, 0, 0, 0, 0, 0, 0, 0, 0, 0, 0, 1}, []byte{0x80, 0x05, 0, 0, 0, 0, 0, 0, 0, 0, 0, 0, 0xff, 0xff, 0xff, 0xff}, []byte{0xff, 0xff, 0xff, 0xff}, bytes.Repeat([]byte{0x80}, 1500))
+			if g.chance(2) {
+				d = g.x.Bytes(0, 80)
 			}
 			in.Segs = append(in.Segs, c35Seg{D: d})
 		}
@@ -845,19 +902,22 @@ func (g *c35G) genSRTRaw() *c35Input {
 	ind := &srtpacket.CIFHandshake{IsRequest: true, Version: 4, EncryptionField: 0, ExtensionField: 2, InitialPacketSequenceNumber: circular.New(0, srtpacket.MAX_SEQUENCENUMBER),
 		MaxTransmissionUnitSize: 1500, MaxFlowWindowSize: 25600, HandshakeType: srtpacket.HSTYPE_INDUCTION, SRTSocketId: sock}
 	ind.PeerIP.FromNetAddr(&net.UDPAddr{IP: net.IPv4(127, 0, 0, 1), Port: 1})
-	if g.chance("indodd", 5) {
-		ind.Version = uint32(rapid.SampledFrom([]uint32{0, 3, 5, 6, 0xffffffff}).Draw(g.t, g.l("indver")))
-		ind.ExtensionField = uint16(g.intn("indext", 0, 65535))
-		ind.MaxTransmissionUnitSize = uint32(v35.EvilUint(g.t, g.l("indmtu")))
+	if g.chance(8) {
+		ind.Version = []uint32{0, 3, 5, 6, 0xffffffff}[g.x.Intn(5)]
+		ind.ExtensionField = uint16(g.rng(0, 65535))
+		ind.MaxTransmissionUnitSize = uint32(g.x.EvilUint())
 	}
 	d0 := c35SRTPacket(srtpacket.CTRLTYPE_HANDSHAKE, 0, 0, 1, 0, ind, nil)
-	in.Segs = append(in.Segs, c35Seg{D: g.mut("indmut", d0), Wait: true})
+	if g.chance(8) {
+		d0 = g.x.MutateBytesAlways(d0)
+	}
+	in.Segs = append(in.Segs, c35Seg{D: d0, Wait: true})
 
-	sid := g.srtStreamID("sid", false)
+	sid := g.srtStreamID(false)
 	if len(sid) > 512 {
 		sid = sid[:512]
 	}
-	con := &srtpacket.CIFHandshake{IsRequest: true, Version: 5, EncryptionField: 0, ExtensionField: 1, InitialPacketSequenceNumber: circular.New(uint32(g.intn("isn", 0, 1000)), srtpacket.MAX_SEQUENCENUMBER),
+	con := &srtpacket.CIFHandshake{IsRequest: true, Version: 5, EncryptionField: 0, ExtensionField: 1, InitialPacketSequenceNumber: circular.New(uint32(g.rng(0, 1000)), srtpacket.MAX_SEQUENCENUMBER),
 		MaxTransmissionUnitSize: 1500, MaxFlowWindowSize: 25600, HandshakeType: srtpacket.HSTYPE_CONCLUSION, SRTSocketId: sock,
 		HasHS: true, HasSID: sid != "", StreamId: sid,
 		SRTHS: &srtpacket.CIFHandshakeExtension{SRTVersion: 0x010401, RecvTSBPDDelay: 120, SendTSBPDDelay: 120},
@@ -868,29 +928,28 @@ func (g *c35G) genSRTRaw() *c35Input {
 	if con.HasSID {
 		con.ExtensionField |= 4
 	}
-	switch g.intn("conodd", 0, 11) {
+	switch g.x.Intn(12) {
 	case 0:
-		con.Version = uint32(rapid.SampledFrom([]uint32{0, 4, 6, 0xffffffff}).Draw(g.t, g.l("conver")))
+		con.Version = []uint32{0, 4, 6, 0xffffffff}[g.x.Intn(4)]
 	case 1:
-		con.SRTHS.SRTVersion = uint32(rapid.SampledFrom([]uint32{0, 0x010200, 0x010300, 0xffffffff}).Draw(g.t, g.l("srtver")))
+		con.SRTHS.SRTVersion = []uint32{0, 0x010200, 0x010300, 0xffffffff}[g.x.Intn(4)]
 	case 2:
-		con.SRTHS.SRTFlags = srtpacket.CIFHandshakeExtensionFlags{STREAM: g.chance("fs", 2), PACKET_FILTER: g.chance("fp", 2)}
+		con.SRTHS.SRTFlags = srtpacket.CIFHandshakeExtensionFlags{STREAM: g.chance(2), PACKET_FILTER: g.chance(2)}
 	case 3:
-		con.MaxTransmissionUnitSize = uint32(v35.EvilUint(g.t, g.l("mtu")))
-		con.MaxFlowWindowSize = uint32(v35.EvilUint(g.t, g.l("fc")))
+		con.MaxTransmissionUnitSize = uint32(g.x.EvilUint())
+		con.MaxFlowWindowSize = uint32(g.x.EvilUint())
 	case 4:
-		con.EncryptionField = uint16(g.intn("enc", 0, 7))
+		con.EncryptionField = uint16(g.rng(0, 7))
 		con.HasKM = true
 		con.ExtensionField |= 2
 		con.SRTKM = &srtpacket.CIFKeyMaterialExtension{S: 0, Version: 1, PacketType: 2, Sign: 0x2029, KeyBasedEncryption: srtpacket.EvenKeyEncrypted, KeyEncryptionKeyIndex: 0, Cipher: 2, Authentication: 0, StreamEncapsulation: 2, SLen: 16, KLen: 16, Salt: make([]byte, 16), Wrap: make([]byte, 24)}
 	case 5:
 		con.HasCongestionCtl = true
-		con.CongestionCtl = g.pick("cc", "live", "file", "", "x", strings.Repeat("c", 100))
+		con.CongestionCtl = g.pick("live", "file", "", "x", strings.Repeat("c", 100))
 	case 6:
-		con.HandshakeType = srtpacket.HandshakeType(rapid.SampledFrom([]uint32{0, 1, 0xfffffffd, 0xfffffffe, 1000, 1002, 5}).Draw(g.t, g.l("hstype")))
+		con.HandshakeType = srtpacket.HandshakeType([]uint32{0, 1, 0xfffffffd, 0xfffffffe, 1000, 1002, 5}[g.x.Intn(7)])
 	case 7:
-		con.ExtensionField = uint16(g.intn("extfield", 0, 65535))
-	default:
+		con.ExtensionField = uint16(g.rng(0, 65535))
 	}
 	d1 := func() (out []byte) {
 		defer func() {
@@ -904,47 +963,51 @@ func (g *c35G) genSRTRaw() *c35Input {
 		d1 = append([]byte(nil), d0...)
 	}
 	// extension area damage: lengths, types
-	if len(d1) > 64 && g.chance("extdmg", 3) {
+	if len(d1) > 64 && g.chance(3) {
 		ext := d1[64:]
-		pos := g.intn("extpos", 0, len(ext)-1)
-		ext[pos] = byte(rapid.SampledFrom([]int{0, 1, 0xff, 0x7f, 4, 5}).Draw(g.t, g.l("extval")))
+		ext[g.x.Intn(len(ext))] = []byte{0, 1, 0xff, 0x7f, 4, 5}[g.x.Intn(6)]
 	}
-	if g.chance("conappend", 6) { // extra extension blocks
-		d1 = append(d1, g.pickBytes("extra", []byte{0, 5, 0, 1, 'x', 0, 0, 0}, []byte{0, 5, 0xff, 0xff}, []byte{0, 9, 0, 0}, []byte{0, 1, 0, 3, 0, 1, 4, 1, 0, 0, 0, 0xbf, 0, 120, 0, 120}, []byte{0, 3, 0, 1}, []byte{0xff, 0xff, 0, 0}, []byte{0})...)
+	if g.chance(6) { // extra extension blocks
+		d1 = append(d1, g.pickBytes([]byte{0, 5, 0, 1, 'x', 0, 0, 0}, []byte{0, 5, 0xff, 0xff}, []byte{0, 9, 0, 0}, []byte{0, 1, 0, 3, 0, 1, 4, 1, 0, 0, 0, 0xbf, 0, 120, 0, 120}, []byte{0, 3, 0, 1}, []byte{0xff, 0xff, 0, 0}, []byte{0})...)
 	}
-	in.Segs = append(in.Segs, c35Seg{D: g.mut("conmut", d1), Wait: true, New: true})
-	if g.chance("contwice", 5) {
+	if g.chance(5) {
+		d1 = g.x.MutateBytesAlways(d1)
+	}
+	in.Segs = append(in.Segs, c35Seg{D: d1, Wait: true, New: true})
+	if g.chance(5) {
 		in.Segs = append(in.Segs, c35Seg{D: d1, Wait: true, New: true})
 	}
 	// after the handshake
-	for i := 0; i < g.intn("nafter", 0, 4); i++ {
-		l := fmt.Sprintf("a%d", i)
+	for i := 0; i < g.rng(0, 4); i++ {
 		var d []byte
-		switch g.intn(l+"k", 0, 7) {
+		switch g.x.Intn(8) {
 		case 0:
 			d = c35SRTPacket(srtpacket.CTRLTYPE_KEEPALIVE, 0, 0, 3, 0, nil, nil)
 		case 1:
-			ack := &srtpacket.CIFACK{LastACKPacketSequenceNumber: circular.New(uint32(g.intn(l+"ackseq", 0, 100)), srtpacket.MAX_SEQUENCENUMBER), RTT: uint32(v35.EvilUint(g.t, g.l(l+"rtt"))), IsLite: g.chance(l+"lite", 3), IsSmall: g.chance(l+"small", 3)}
-			d = c35SRTPacket(srtpacket.CTRLTYPE_ACK, 0, uint32(g.intn(l+"ackno", 0, 3)), 3, 0, ack, nil)
+			ack := &srtpacket.CIFACK{LastACKPacketSequenceNumber: circular.New(uint32(g.rng(0, 100)), srtpacket.MAX_SEQUENCENUMBER), RTT: uint32(g.x.EvilUint()), IsLite: g.chance(3), IsSmall: g.chance(3)}
+			d = c35SRTPacket(srtpacket.CTRLTYPE_ACK, 0, uint32(g.rng(0, 3)), 3, 0, ack, nil)
 		case 2:
-			nak := &srtpacket.CIFNAK{LostPacketSequenceNumber: []circular.Number{circular.New(uint32(g.intn(l+"n1", 0, 100)), srtpacket.MAX_SEQUENCENUMBER), circular.New(uint32(g.intn(l+"n2", 0, 0x7fffffff)), srtpacket.MAX_SEQUENCENUMBER)}}
+			nak := &srtpacket.CIFNAK{LostPacketSequenceNumber: []circular.Number{circular.New(uint32(g.rng(0, 100)), srtpacket.MAX_SEQUENCENUMBER), circular.New(uint32(g.rng(0, 0x7fffffff)), srtpacket.MAX_SEQUENCENUMBER)}}
 			d = c35SRTPacket(srtpacket.CTRLTYPE_NAK, 0, 0, 3, 0, nak, nil)
 		case 3:
-			d = c35SRTPacket(srtpacket.CTRLTYPE_ACKACK, 0, uint32(g.intn(l+"aa", 0, 5)), 3, 0, nil, nil)
+			d = c35SRTPacket(srtpacket.CTRLTYPE_ACKACK, 0, uint32(g.rng(0, 5)), 3, 0, nil, nil)
 		case 4:
 			d = c35SRTPacket(srtpacket.CTRLTYPE_SHUTDOWN, 0, 0, 3, 0, &srtpacket.CIFShutdown{}, nil)
 		case 5:
-			d = c35SRTPacket(srtpacket.CTRLTYPE_USER, srtpacket.CtrlSubType(g.intn(l+"sub", 0, 6)), 0, 3, 0, nil, rapid.SliceOfN(rapid.Byte(), 0, 40).Draw(g.t, g.l(l+"ud")))
+			d = c35SRTPacket(srtpacket.CTRLTYPE_USER, srtpacket.CtrlSubType(g.rng(0, 6)), 0, 3, 0, nil, g.x.Bytes(0, 40))
 		case 6: // data packet
 			h := make([]byte, 16)
-			binary.BigEndian.PutUint32(h[0:], uint32(g.intn(l+"dseq", 0, 0x7fffffff)))
-			binary.BigEndian.PutUint32(h[4:], uint32(v35.EvilUint(g.t, g.l(l+"dmsg"))))
+			binary.BigEndian.PutUint32(h[0:], uint32(g.rng(0, 0x7fffffff)))
+			binary.BigEndian.PutUint32(h[4:], uint32(g.x.EvilUint()))
 			binary.BigEndian.PutUint32(h[8:], 4)
-			d = append(h, g.tsPackets(l+"ts", g.intn(l+"tsn", 0, 7))...)
+			d = append(h, g.tsPackets(g.rng(0, 7))...)
 		default:
-			d = c35SRTPacket(srtpacket.CtrlType(g.intn(l+"ct", 0, 0x7fff)), 0, 0, 3, 0, nil, rapid.SliceOfN(rapid.Byte(), 0, 24).Draw(g.t, g.l(l+"cd")))
+			d = c35SRTPacket(srtpacket.CtrlType(g.rng(0, 0x7fff)), 0, 0, 3, 0, nil, g.x.Bytes(0, 24))
 		}
-		in.Segs = append(in.Segs, c35Seg{D: g.mut(l+"mut", d), New: true, Wait: g.chance(l+"wait", 3)})
+		if g.chance(4) {
+			d = g.x.MutateBytesAlways(d)
+		}
+		in.Segs = append(in.Segs, c35Seg{D: d, New: true, Wait: g.chance(3)})
 	}
 	in.Note = fmt.Sprintf("srt raw handshake streamid=%q +%d packets", sid, len(in.Segs)-2)
 	return in
@@ -953,13 +1016,16 @@ func (g *c35G) genSRTRaw() *c35Input {
 // ---------------------------------------------------------------- MoQ over the real listeners
 
 func (g *c35G) genMoQ() *c35Input {
-	wt := g.chance("wt", 3)
-	sc := v35.GenMoQ(g.t, !wt)
+	wt := g.chance(3)
+	sc := v35.GenMoQ(g.x, !wt)
 	in := &c35Input{L: "moqquic", K: "quic", Proto: "moq", Cls: "moq-quic-" + sc.Flow, MoQ: &sc}
 	if wt {
 		in.L, in.K, in.Cls = "moqhttp3", "wt", "moq-wt-"+sc.Flow
-		p := g.path("wtpath")
-		in.WTPath = g.pick("wtshape", p, p, p, p+"/moq", p+"/", p+"?token=x", "", "moq", "/moq", p+"/moq/moq")
+		p := g.path()
+		in.WTPath = p
+		if g.odd(5) {
+			in.WTPath = g.pick(p+"/moq", p+"/", p+"?token=x", "", "moq", "/moq", p+"/moq/moq")
+		}
 	}
 	in.Note = in.K + " " + in.WTPath + " " + sc.Describe()
 	return in
